@@ -14,6 +14,12 @@ TRUSTED = [
     "translator/c10.py (fail-closed python-ast reader of ParameterValues.__init__/.boundaries, _set_bound, "
     "convert_to_parameters, update_processor, __init__/get_bounds, fitness): what it extracts is believed; the "
     "description it emits is also run against the implementation on every case (mismatches_g, hist_mismatches)",
+    "translator/c10_norm.py: behaviour-preserving source normalisations applied before the reader (helper calls of "
+    "the same module / class / package inlined with their arguments, single-assignment aliases of pure expressions "
+    "substituted, guard clauses / continue == nested if-else, match on literals == if/elif, list comprehension / "
+    "sum() == loop, conditional expression == if/else, tuple pack/unpack, slice() == a:b, module-level literal "
+    "constants). Assumed: attribute / property loads and len() are side-effect free (an attribute chain may be read "
+    "once or several times), `self.m` resolves to the method of the class that is read (no overriding subclass)",
     "correspondence harness: harness/props/c10.py generators, harness/drivers/c10.py, probes/verif_probes_c10.py "
     "(thread-local capture of the arguments a model receives), float.hex() -> exact rationals",
     "modelled, not verified: numpy slicing/assignment semantics (a[..., s:t] = f(a[..., s:t]) clamps at the end), "
@@ -774,6 +780,13 @@ def run(ctx: Ctx):
                                  str(ex)))
         ctx.log(f"translation failed (continuing with the description of the unchanged tree): {ex}")
         gen = {"Gen_C10.v": FALLBACK}
+    # the source normalisations the translator relies on: normalised == as written, on functions exercising every rule
+    try:
+        from translator.c10_norm import selftest
+        ctx.cov["normaliser_selftest_comparisons"] = selftest()
+    except Exception as ex:  # noqa: BLE001
+        ctx.broken.append(Broken("translation", "translator/c10_norm.py (self-test of the source normalisations)",
+                                 f"{type(ex).__name__}: {ex}"[:600]))
     core.proof_leg(ctx, gen, PROP_FILE)
     # the case files need the generated description even when the property file no longer compiles
     gdir = ctx.build / "gen"
